@@ -220,6 +220,10 @@ func TestVerifC06Honest(t *testing.T) {
 								r.Violate("C06|credential-attributes-wrong", fmt.Sprintf("%s: attribute %d", cfg, i), rep)
 							}
 						}
+						// nothing of the credential's signature may come from an unauthenticated part of the message
+						if (cred.Signature.KeyshareP == nil) != (run.kssP == nil) || run.kssP != nil && cred.Signature.KeyshareP.Cmp(run.kssP) != 0 {
+							r.Violate("C06|credential-carries-foreign-keyshare-contribution", cfg.String(), rep)
+						}
 						if !cred.Signature.Verify(k.Pk, cred.Attributes) {
 							r.Violate("C06|credential-signature-invalid", cfg.String(), rep)
 						}
@@ -454,6 +458,37 @@ func TestVerifC06Deviations(t *testing.T) {
 					r.Violate("C06|credential-produced-despite-deviation|"+a.class, fmt.Sprintf("%s: %s", cfg, a.desc), rep)
 				default:
 					r.Outcome(a.class + ":holder-rejected")
+				}
+			}
+			// two cooperating alterations, one per message: the commitment handed to the issuer is U*X
+			// (ProofU untouched) and the issuer's message carries Signature.KeyshareP = X (or 1/X)
+			if !cfg.keyshare {
+				for _, inv := range []bool{false, true} {
+					run := c06Start(cfg, "pair")
+					msg := &IssueCommitmentMessage{}
+					vfJSONCopy(run.commit, msg)
+					X := new(big.Int).Exp(run.k.Pk.R[0], vfTag("c06-x"), run.k.Pk.N)
+					msg.U = new(big.Int).Mul(msg.U, X)
+					msg.U.Mod(msg.U, run.k.Pk.N)
+					r.Eval()
+					r.Nontrivial(fmt.Sprintf("%s|pair U*X + KeyshareP (inv=%v)", cfg, inv))
+					ism, _ := run.issue(msg, run.nonce1, true)
+					if ism == nil {
+						continue
+					}
+					ism = c06CopyISM(ism)
+					ism.Signature.KeyshareP = X
+					if inv {
+						ism.Signature.KeyshareP = new(big.Int).ModInverse(X, run.k.Pk.N)
+					}
+					cred, err, pan := run.finish(ism)
+					rep := map[string]any{"config": cfg.String(), "alteration": "msg1.U*X and msg2.Signature.KeyshareP=X^(+-1)"}
+					if pan != "" {
+						r.Violate("C06|panic-instead-of-rejection|holder|pair:U*X+KeyshareP", pan, rep)
+					} else if err == nil && cred != nil {
+						sigOK := (&CLSignature{A: cred.Signature.A, E: cred.Signature.E, V: cred.Signature.V}).Verify(run.k.Pk, cred.Attributes)
+						r.Violate("C06|credential-produced-despite-deviation|pair:U*X+KeyshareP", fmt.Sprintf("%s: holder accepted; signature over exactly (secret, attributes) verifies=%v", cfg, sigOK), rep)
+					}
 				}
 			}
 			// nonce2 / context: the issuer signs for another nonce2 or context than the holder's
